@@ -103,7 +103,7 @@ def run_suite(V, wd, programs, configs, prop, checks=("link", "boundary", "resul
 
     # -- D: results against SeqSemantics
     nres = 0
-    if "result" in checks:
+    if "result" in checks or "sinks" in checks:
         recs = []
         for jid, r in results.items():
             if not job_ok(r):
@@ -116,9 +116,10 @@ def run_suite(V, wd, programs, configs, prop, checks=("link", "boundary", "resul
                 if pp != prop:
                     V.add_violation({"prop": prop, "kind": kind, "job": jid, "sink": sid},
                                     replay=jobs_by_id[jid])
-            recs.append({"ev": "run", "id": jid, "prop": p.get("prop", prop), "prog": p["prog"],
-                         "sinks": sinks})
-            recs.append({"ev": "done", "id": jid})
+            if "result" in checks:
+                recs.append({"ev": "run", "id": jid, "prop": p.get("prop", prop), "prog": p["prog"],
+                             "sinks": sinks})
+                recs.append({"ev": "done", "id": jid})
         files = split_trace_files(recs, wd, "jr", max_events=400)
         if files:
             viols, consumed, states, _ = validate_parallel("JobResult", files, wd)
